@@ -94,7 +94,14 @@ def run_config(prog, cfg):
         from .. import assume
         inner = [(b, i, e) for b, i, e in f.calls() if (e.get("slot") in ("ber_decoder", "xer_decoder", "uper_decoder", "oer_decoder"))
                  or e.get("callee") in ("uper_open_type_get", "oer_open_type_get")]
-        free_blocks = {b.id for b, i, e in f.calls() if e.get("slot") == "free_struct"}
+        # the partial value is released through the *selected* type's free function applied to the inner value; a free/reset
+        # of the holder through the open type's own descriptor frees nothing while the presence index is still 0
+        def _frees_inner(e):
+            if e.get("slot") != "free_struct":
+                return False
+            txt = tree_text(e.get("callee_tree"))
+            return "selected" in txt and any(is_var(strip_casts(a.get("tree"))) and strip_casts(a["tree"])[1].split("@")[0] == "inner_value" for a in e.get("args", []))
+        free_blocks = {b.id for b, i, e in f.calls() if _frees_inner(e)}
         for db, di, de in inner:
             key = "cleanup-after:%s" % (de.get("callee") or "->" + de["slot"])
             struct = "asn_dec_rval" in de.get("ret_type", "")
@@ -104,24 +111,20 @@ def run_config(prog, cfg):
                 continue
             values = (1, 2) if struct else (-1, 0)
             bad = None
+            # edges on which there is nothing to free: the NULL edge of a test of the holder
+            null_edges = set()
+            for bb in f.blocks.values():
+                if bb.term and "cond" in bb.term and len(bb.succ) >= 2:
+                    ct = strip_casts(bb.term["cond"]["tree"])
+                    if isinstance(ct, list) and ct and ((ct[0] == "un" and ct[1] == "*") or (ct[0] == "bin" and ct[1] == "!=" and const_of(ct[3]) == 0)):
+                        if bb.succ[1] is not None:
+                            null_edges.add((bb.id, bb.succ[1]))
             for v in values:
-                hits = assume.explore(f, db, di, subj, v, lambda b_, i_, e_, env=None: "success", origin_callid=de.get("id"), from_entry=False, subject_return_ok=False)
+                # is a return reachable, under the assumption, on a path that avoids every block freeing the inner value?
+                hits = assume.explore(f, db, di, subj, v, lambda b_, i_, e_, env=None: "success", origin_callid=de.get("id"), from_entry=False,
+                                      subject_return_ok=False, stop_blocks=free_blocks - {db.id}, dead_edges=null_edges)
                 for kind, rb, ri, re, path, lost in hits:
                     if kind == "abort":
-                        continue
-                    if set(path) & free_blocks:
-                        continue
-                    # nothing to free when the holder is NULL: the path went through the NULL edge of a test of *memb_ptr2
-                    null_edge = False
-                    for x, y in zip(path, path[1:]):
-                        bb = f.blocks[x]
-                        if bb.term and "cond" in bb.term and len(bb.succ) >= 2:
-                            ct = strip_casts(bb.term["cond"]["tree"])
-                            if isinstance(ct, list) and ct[0] == "un" and ct[1] == "*" and bb.succ[1] == y:
-                                null_edge = True
-                            if isinstance(ct, list) and ct[0] == "bin" and ct[1] == "!=" and const_of(ct[3]) == 0 and bb.succ[1] == y:
-                                null_edge = True
-                    if null_edge:
                         continue
                     bad = (v, re, path)
                     break
